@@ -1,6 +1,7 @@
 package props
 
 import (
+	"bytes"
 	"encoding/base64"
 	"encoding/json"
 	"fmt"
@@ -379,6 +380,26 @@ func runC12(c *core.Ctx) {
 				}
 				for _, tail := range []string{" garbage", "}", "{}", ","} {
 					add(fmt.Sprintf("file: complete document followed by %q", tail), append(append([]byte{}, raw...), tail...))
+				}
+				// a control character written as it is inside a string (JSON demands an escape): no
+				// JSON parser accepts such a document
+				{
+					member := "name"
+					if kind == "layout" {
+						member = "readme"
+					}
+					pl := gen.DeepCopy(f.payload).(map[string]any)
+					pl[member] = "aZQCTRLZQb"
+					for _, ctrl := range []string{"\n", "\t", "\r", "\x01", "\x1f", "\x0b", "\n\n"} {
+						if f.dsse {
+							pb, _ := json.Marshal(pl)
+							d := gen.DeepCopy(f.doc).(map[string]any)
+							d["payload"] = base64.StdEncoding.EncodeToString(bytes.Replace(pb, []byte("ZQCTRLZQ"), []byte(ctrl), 1))
+							add(fmt.Sprintf("payload: raw control character %q inside the string %s", ctrl, member), wrapperFile(d))
+						} else {
+							add(fmt.Sprintf("file: raw control character %q inside the string %s", ctrl, member), bytes.Replace(f.withPayload(pl), []byte("ZQCTRLZQ"), []byte(ctrl), 1))
+						}
+					}
 				}
 				// type marker
 				for _, tm := range []any{"Link", "LAYOUT", "step", "", "linklayout", nil, json.Number("1")} {
@@ -883,7 +904,7 @@ func init() {
 	core.Register(&core.Property{
 		ID:    "C12",
 		Level: "exploration",
-		Rule: "(A) round trip: seeded links/layouts (hostile strings, nested values, constraints, CA maps; a fifth with absent collections, which the library writes as null; every 13th with content that spells the member names of the file formats (payloadType, payload, signatures, signed, _type); every 41st of several hundred KiB: 1500 products / 2500 rules) x wrapper x 0-2 signatures (legacy: one with certificate), Dump -> LoadMetadata / Metablock.Load (every 7th file written and read back through a symbolic link to it): wrapper recognised, payload, signatures and signature validity preserved; (B) labelled single-point corruptions of the dumped JSON: drop/null/retype of the wrapper parts, wrong payload types, undecodable payload, a complete document followed by something (inside the envelope payload and behind the file), truncations, unknown/odd type markers, drop/rename of every required top-level member, an unknown member at every fixed-schema level, a renamed member at every nested fixed-schema level, a value of another JSON type at every schema-typed node - all must be refused by both loaders; (C) ValidateMetablock against a reference validator (one predicate per format rule) on conforming bases and ~64 single-rule variants (malformed rules also in front of and between well-formed ones; well-formed rules whose operands are spelled like keywords or contain blanks; malformed rules that read like an earlier well-formed rule of the same layout once their words are joined) (plus 17 near-hexadecimal strings - sign, 0x, blanks, underscore, full-width digits - at every place where a hexadecimal string is demanded) each for layouts (all three key maps) and links. " +
+		Rule: "(A) round trip: seeded links/layouts (hostile strings, nested values, constraints, CA maps; a fifth with absent collections, which the library writes as null; every 13th with content that spells the member names of the file formats (payloadType, payload, signatures, signed, _type); every 41st of several hundred KiB: 1500 products / 2500 rules) x wrapper x 0-2 signatures (legacy: one with certificate), Dump -> LoadMetadata / Metablock.Load (every 7th file written and read back through a symbolic link to it): wrapper recognised, payload, signatures and signature validity preserved; (B) labelled single-point corruptions of the dumped JSON: drop/null/retype of the wrapper parts, wrong payload types, undecodable payload, a complete document followed by something (inside the envelope payload and behind the file), truncations, a control character written as it is inside a string (payload of the envelope / legacy file), unknown/odd type markers, drop/rename of every required top-level member, an unknown member at every fixed-schema level, a renamed member at every nested fixed-schema level, a value of another JSON type at every schema-typed node - all must be refused by both loaders; (C) ValidateMetablock against a reference validator (one predicate per format rule) on conforming bases and ~64 single-rule variants (malformed rules also in front of and between well-formed ones; well-formed rules whose operands are spelled like keywords or contain blanks; malformed rules that read like an earlier well-formed rule of the same layout once their words are joined) (plus 17 near-hexadecimal strings - sign, 0x, blanks, underscore, full-width digits - at every place where a hexadecimal string is demanded) each for layouts (all three key maps) and links. " +
 			"non-trivial = the corruption changed the parsed JSON / the variant differs from the base; distinct = (kind, wrapper, loader, corruption label) resp. hash of the value",
 		Assumptions: []string{
 			"an expiry with fractional seconds (2030-01-01T00:00:00.5Z) is not judged: it is a parseable UTC timestamp, although not of the YYYY-MM-DDThh:mm:ssZ shape",
